@@ -23,7 +23,7 @@ RULE = ("random directory trees (depth <= 4): identifier / non-identifier / igno
         "--usecompiled; the real find_test_files runs in-process and a --list-tests CLI run records which modules were "
         "imported (each module's top level appends its name to a trace). Non-trivial = at least 2 yielded files; "
         "distinct by (tree, options)")
-ASSUMPTIONS = ["--package/-s and symlinked directories are not modelled", "regular expressions are evaluated by the harness"]
+ASSUMPTIONS = ["--package/-s is not modelled; symlinked directories are materialised (20% of sub-directories) and must behave like real ones", "regular expressions are evaluated by the harness"]
 TRUSTED = ["os.walk / importlib (the tree is supplied to the model by the harness)"]
 
 FILES = ["tests.py", "test_a.py", "test_b.py", "testx.py", "ftests.py", "helper.py", "__init__.py", "tests.pyc",
